@@ -6,21 +6,20 @@
    [ends_ok g s o x y] "restricted to the given start and/or end term" (both ends
    unbound: the pairs range over the nodes of the graph).
 
-   Three findings limit the full statement (each has a [_refuted] witness):
-     F4b  p* / p? with a bound end on a cycle yields the zero-length pair twice
+   Findings F4a, F4b (zero-length pair twice) and F4d (backward evaluation of a
+   sequence of three or more steps) are repaired in the code and in the model.
+   Two findings still limit the full statement (each has a [_refuted] witness):
      F4c  negated property sets with an inverse member do not follow 18.4
-     F4d  a sequence of >= 3 steps that can all match with zero length, evaluated
-          backwards from a bound end that is not a node of the graph, misses (y,y)
+          (cannot be repaired: the module doctest of paths.py pins the behaviour)
      F4e  (SPARQL route) translatePath does not translate ^iri inside !(..), and !() raises *)
 From RV Require Import Paths.Model Paths.Basics Paths.Eval Paths.Spec Paths.Main.
 
 (* Soundness and completeness for each of the four bound/unbound combinations of
-   the ends, every path without an inverse member in a negated set (F4c), and -
-   unless the path is free of the F4d pattern - bound ends that occur in the graph.
-   The fuel [fuel g] is never exhausted. *)
+   the ends, every graph, every bound term (in the graph or not, truthy or not)
+   and every path without an inverse member in a negated set (F4c).  The fuel
+   [fuel g] is never exhausted. *)
 Theorem C11_sound_complete_partial : forall g p s o,
   wfp p = true -> has_ninv p = false ->
-  (has_seq3 p = false \/ (end_nd g s = true /\ end_nd g o = true)) ->
   exists l, eval g (fuel g) p s o = Ok l
             /\ forall x y, In (x, y) l <-> path_rel g p x y /\ ends_ok g s o x y.
 Proof. exact sound_complete. Qed.
@@ -28,7 +27,7 @@ Print Assumptions C11_sound_complete_partial.
 
 (* the same, spelled out per combination *)
 Theorem C11_four_bindings_partial : forall g p a b,
-  wfp p = true -> has_ninv p = false -> has_seq3 p = false ->
+  wfp p = true -> has_ninv p = false ->
   (exists l, eval g (fuel g) p (Some a) (Some b) = Ok l
              /\ forall x y, In (x, y) l <-> path_rel g p x y /\ x = a /\ y = b)
   /\ (exists l, eval g (fuel g) p (Some a) None = Ok l
@@ -38,11 +37,11 @@ Theorem C11_four_bindings_partial : forall g p a b,
   /\ (exists l, eval g (fuel g) p None None = Ok l
              /\ forall x y, In (x, y) l <-> path_rel g p x y /\ In x (nodes g) /\ In y (nodes g)).
 Proof.
-  intros g p a b Hw Hi Hs.
-  split; [exact (sound_complete g p (Some a) (Some b) Hw Hi (or_introl Hs))|].
-  split; [exact (sound_complete g p (Some a) None Hw Hi (or_introl Hs))|].
-  split; [exact (sound_complete g p None (Some b) Hw Hi (or_introl Hs))|].
-  exact (sound_complete g p None None Hw Hi (or_introl Hs)).
+  intros g p a b Hw Hi.
+  split; [exact (sound_complete g p (Some a) (Some b) Hw Hi)|].
+  split; [exact (sound_complete g p (Some a) None Hw Hi)|].
+  split; [exact (sound_complete g p None (Some b) Hw Hi)|].
+  exact (sound_complete g p None None Hw Hi).
 Qed.
 Print Assumptions C11_four_bindings_partial.
 
@@ -50,10 +49,9 @@ Print Assumptions C11_four_bindings_partial.
    never run out of the fuel |subject/object occurrences| + 1. *)
 Theorem C11_terminates_partial : forall g p s o,
   wfp p = true -> has_ninv p = false ->
-  (has_seq3 p = false \/ (end_nd g s = true /\ end_nd g o = true)) ->
   eval g (fuel g) p s o <> OutOfFuel /\ eval g (fuel g) p s o <> Raised.
 Proof.
-  intros g p s o Hw Hi Hc. destruct (sound_complete g p s o Hw Hi Hc) as (l & Hl & _).
+  intros g p s o Hw Hi. destruct (sound_complete g p s o Hw Hi) as (l & Hl & _).
   rewrite Hl. split; discriminate.
 Qed.
 Print Assumptions C11_terminates_partial.
@@ -61,21 +59,17 @@ Print Assumptions C11_terminates_partial.
 (* more fuel changes nothing: any n >= fuel g gives a correct answer too *)
 Theorem C11_fuel_monotone_partial : forall g n p s o,
   fuel g <= n -> wfp p = true -> has_ninv p = false ->
-  (has_seq3 p = false \/ (end_nd g s = true /\ end_nd g o = true)) ->
   exists l, eval g n p s o = Ok l
             /\ forall x y, In (x, y) l <-> path_rel g p x y /\ ends_ok g s o x y.
-Proof. intros g n p s o Hn Hw Hi Hc. exact (eval_spec g n Hn p Hw Hi s o Hc). Qed.
+Proof. intros g n p s o Hn Hw Hi. exact (eval_spec g n Hn p Hw Hi s o (or_introl I)). Qed.
 Print Assumptions C11_fuel_monotone_partial.
 
-(* The answer of a closure (p*, p+, p?, possibly under ^) has no duplicates,
-   unless the zero-length pair of a bound end is found again by the search (F4b). *)
-Theorem C11_closure_nodup_partial : forall g p s o l,
-  closure_top p = true -> wfp p = true -> has_ninv p = false ->
-  (has_seq3 p = false \/ (end_nd g s = true /\ end_nd g o = true)) ->
-  dup_trigger g p s o = false ->
-  eval g (fuel g) p s o = Ok l -> NoDup l.
+(* The answer of a closure (p*, p+, p?, possibly under ^) has no duplicates:
+   full strength - any graph, any inner path (even one inside F4c), any ends, any fuel. *)
+Theorem C11_closure_nodup : forall g n p s o l,
+  closure_top p = true -> eval g n p s o = Ok l -> NoDup l.
 Proof. exact dup_free. Qed.
-Print Assumptions C11_closure_nodup_partial.
+Print Assumptions C11_closure_nodup.
 
 (* A zero-length match on a given term holds even if the term does not occur in
    the graph (no hypothesis on the graph, the inner path or the term). *)
@@ -119,16 +113,7 @@ Proof. exact spec_ok_model. Qed.
 Print Assumptions C11_spec_ok_model_partial.
 
 (* The full statement "forall c, wf c -> spec_ok c (model_obs c) = true" is false:
-   one witness per finding, each replayed on rdflib (corpus/C11). *)
-Theorem C11_F4b_refuted : exists c, wf c /\ kf c = 1%N /\ spec_ok c (model_obs c) = false
-  /\ model_obs c = Ok [(1, 1); (1, 2); (1, 1)]%N.
-Proof.
-  exists {| c_g := [(1, 3, 2); (2, 3, 1)]%N; c_path := Mul (Iri 3%N) ZeroOrMore;
-            c_s := Some 1%N; c_o := None; c_sparql := false |}.
-  repeat split; vm_compute; reflexivity.
-Qed.
-Print Assumptions C11_F4b_refuted.
-
+   one witness per open finding, each replayed on rdflib (corpus/C11). *)
 Theorem C11_F4c_refuted : exists c, wf c /\ kf c = 2%N /\ spec_ok c (model_obs c) = false
   /\ model_obs c = Ok [(1, 2)]%N /\ expected (c_g c) (c_path c) (c_s c) (c_o c) = [(2, 1)]%N.
 Proof.
@@ -138,15 +123,6 @@ Proof.
 Qed.
 Print Assumptions C11_F4c_refuted.
 
-Theorem C11_F4d_refuted : exists c, wf c /\ kf c = 3%N /\ spec_ok c (model_obs c) = false
-  /\ model_obs c = Ok [] /\ expected (c_g c) (c_path c) (c_s c) (c_o c) = [(1, 1)]%N.
-Proof.
-  exists {| c_g := []; c_path := Seq [Mul (Iri 3%N) ZeroOrMore; Mul (Iri 4%N) ZeroOrMore; Mul (Iri 3%N) ZeroOrMore];
-            c_s := None; c_o := Some 1%N; c_sparql := false |}.
-  repeat split; vm_compute; reflexivity.
-Qed.
-Print Assumptions C11_F4d_refuted.
-
 Theorem C11_F4e_refuted : exists c, wf c /\ kf c = 4%N /\ model_obs c = Raised.
 Proof.
   exists {| c_g := [(1, 3, 2)]%N; c_path := Neg [NInv 4%N];
@@ -154,6 +130,23 @@ Proof.
   repeat split; vm_compute; reflexivity.
 Qed.
 Print Assumptions C11_F4e_refuted.
+
+(* The code as it was before the "fix:" commits for F4d and F4b did not have the
+   property: the historical definitions on the former witnesses. *)
+Theorem C11_hist_F4d_refuted :
+  let g : graph := [] in
+  let l := [ev_mul g 1 (ev_iri g 3%N) ZeroOrMore; ev_mul g 1 (ev_iri g 4%N) ZeroOrMore;
+            ev_mul g 1 (ev_iri g 3%N) ZeroOrMore] in
+  hist_seq_bw l None (Some 1%N) = Ok [] /\ seq_bw l None (Some 1%N) = Ok [(1, 1)]%N.
+Proof. exact hist_seq_bw_refuted. Qed.
+Print Assumptions C11_hist_F4d_refuted.
+
+Theorem C11_hist_F4b_refuted :
+  let g : graph := [(1, 3, 2); (2, 3, 1)]%N in
+  hist_ev_mul g (fuel g) (ev_iri g 3%N) ZeroOrMore (Some 1%N) None = Ok [(1, 1); (1, 2); (1, 1)]%N
+  /\ ev_mul g (fuel g) (ev_iri g 3%N) ZeroOrMore (Some 1%N) None = Ok [(1, 1); (1, 2)]%N.
+Proof. exact hist_ev_mul_refuted. Qed.
+Print Assumptions C11_hist_F4b_refuted.
 
 (* Histories on one Graph object (evaluations interleaved with additions and
    removals): outside the triggers every evaluation of the model is accepted by
@@ -174,14 +167,17 @@ Proof. exact h_spec_reading. Qed.
 Print Assumptions C11_history_reading.
 
 (* non-vacuity: a nested closure over a graph with a 2-cycle, a self-loop and a
-   falsy literal end point is inside the scope of the theorems, and its answer
-   from a start that is not in the graph is the zero-length pair alone *)
+   falsy literal end point is inside the scope of the theorems; from a start on
+   the cycle it has three answers, and from a start that is not in the graph the
+   zero-length pair alone; the former F4b and F4d witnesses now have the right answers *)
 Example C11_nonvacuous :
   let g := [(1, 3, 2); (2, 3, 1); (2, 4, 2); (2, 4, 6)]%N in
   let p := Seq [Mul (Alt [Iri 3; Inv (Iri 4)]%N) ZeroOrMore; Mul (Iri 4%N) ZeroOrOne] in
-  wfp p = true /\ has_ninv p = false /\ has_seq3 p = false
-  /\ obs_eqb (eval g (fuel g) p (Some 1%N) None) (Ok [(1, 1); (1, 2); (1, 6)]%N) = false
+  wfp p = true /\ has_ninv p = false
   /\ seteqb pr_eqb (match eval g (fuel g) p (Some 1%N) None with Ok l => l | _ => [] end)
                    [(1, 1); (1, 2); (1, 6)]%N = true
-  /\ eval g (fuel g) p (Some 13%N) None = Ok [(13, 13)]%N.
+  /\ eval g (fuel g) p (Some 13%N) None = Ok [(13, 13)]%N
+  /\ eval [(1, 3, 2); (2, 3, 1)]%N 5 (Mul (Iri 3%N) ZeroOrMore) (Some 1%N) None = Ok [(1, 1); (1, 2)]%N
+  /\ eval [] 1 (Seq [Mul (Iri 3%N) ZeroOrMore; Mul (Iri 4%N) ZeroOrMore; Mul (Iri 3%N) ZeroOrMore])
+          None (Some 1%N) = Ok [(1, 1)]%N.
 Proof. vm_compute. repeat split; reflexivity. Qed.
